@@ -66,6 +66,13 @@ Fixpoint mh_numbers (v : mvariant) (m : mll) (live : mlive) (ops : list mop) : l
 Fixpoint somes (l : list (option nat)) : list nat :=
   match l with [] => [] | Some x :: r => x :: somes r | None :: r => somes r end.
 
+(* the number cg_open stores through its fn argument BEFORE the outcome is known:
+     cg = &(cgns_files[n_cgns_files]); n_cgns_files++; *file_number = n_cgns_files + file_number_offset;
+   (cgi_open_body, right after cgio_open_file succeeded).  A refusal inside cgio_open_file stores nothing; a refusal behind
+   it (wrong version, broken tree, ...) leaves this number in the caller's variable although the call returns CG_ERROR. *)
+Definition fn_left (m : mll) (oc : ooutcome) : option nat :=
+  match oc with OCgioFail => None | _ => Some (length (files m) + 1 + foffset m) end.
+
 (* ------------------------------------------------------------------------------------------------ cgio *)
 (* what the slot holds: the file index inside iolist[c-1].rootid, None for a slot of type CGIO_FILE_NONE *)
 Definition cgio_resolve (s : io) (c : nat) : option nat :=
